@@ -1,7 +1,7 @@
 \* thorough, exhaustive (2x2 matrices with 2..4 stored entries): all pairs of submatrix selections on one object (the submatrix cache)
 SPECIFICATION Spec
 CONSTANTS
-  Forms = {"csr"}
+  Forms = {"coo"}
   Shapes <- ShapesSub
   MinNnz = 2
   MaxNnz = 4
@@ -17,6 +17,7 @@ CONSTANTS
   Dtypes = {"f"}
   WildDtypes = {"f"}
   Ops = {"submatrix"}
+  OpForms = {"coo"}
   MaxSteps = 2
   MaxE = 2
   StrictOrder = TRUE
